@@ -3,7 +3,8 @@
 Stateless model checking of a running bridge on real UDP sockets with the event loop's selector
 under the explorer's control:
   * every sequence of datagrams up to length L over the alphabet {valid water heater, valid plug,
-    valid shutter, valid thermostat, verbatim repeat of the previous valid datagram, foreign bytes,
+    valid shutter, valid thermostat, verbatim repeat of the previous valid datagram of that port, verbatim echo of the last
+    valid datagram of any port, foreign bytes,
     truncated valid frame, valid frame with an undecodable name, unknown model code, corrupted
     magic}, every assignment of the datagrams to the bridge's ports;
   * all datagrams are queued in the kernel first; then every order in which the loop can service the
@@ -37,8 +38,8 @@ ASSUMPTIONS = [
     "a gate-passing datagram with an undecodable name or unknown model must neither deliver nor disturb others (what it logs is C06's subject)",
 ]
 
-KINDS = ["heater", "plug", "shutter", "thermostat", "repeat", "foreign", "truncated", "badname", "unknown", "badmagic"]
-REDUCED = ["heater", "thermostat", "repeat", "foreign", "badname"]
+KINDS = ["heater", "plug", "shutter", "thermostat", "repeat", "echo", "foreign", "truncated", "badname", "unknown", "badmagic"]
+REDUCED = ["heater", "thermostat", "repeat", "echo", "foreign", "badname"]
 TYPE_OF = {"heater": "V4", "plug": "POWER_PLUG", "shutter": "RUNNER", "thermostat": "BREEZE"}
 
 
@@ -50,14 +51,22 @@ def build_datagrams(seq, assign):
         name = "p%ds%d" % (p, i)
         if kind in TYPE_OF:
             data = B.encode(TYPE_OF[kind], name=name, device_id="%02x%02x%02x" % (0xA0 + p, i, 0x5C), on=bool(i % 2))
-            last_valid[p] = (data, name)
+            last_valid[p] = (data, name, i)
             out.append((p, data, name))
         elif kind == "repeat":
             if p in last_valid:
-                data, nm = last_valid[p]
+                data, nm = last_valid[p][:2]
             else:
                 data, nm = B.encode("V2_ESP", name=name, on=True), name
-                last_valid[p] = (data, nm)
+            last_valid[p] = (data, nm, i)
+            out.append((p, data, nm))
+        elif kind == "echo":
+            # the most recent valid datagram of ANY port, byte for byte (one device heard on two ports)
+            if last_valid:
+                data, nm = last_valid[max(last_valid, key=lambda q: last_valid[q][2])][:2]
+            else:
+                data, nm = B.encode("V2_QCA", name=name, on=True), name
+            last_valid[p] = (data, nm, i)
             out.append((p, data, nm))
         elif kind == "foreign":
             out.append((p, bytes((7 * j + i) & 0xFF for j in range(100)), None))
@@ -138,10 +147,25 @@ def execute(ch, nports, seq, assign, res, case, raise_bound):
             if sentinels != ["sentinel%d" % i for i in range(nports)]:
                 res.violation("port-stopped-listening", case, f"after {seq} on ports {assign} (service order {schedule}, raised on {raised}): sentinels delivered {sentinels}")
                 ok = False
+            from collections import Counter
+
+            sent_on = {}
+            for p, _, nm in dgs:
+                if nm is not None:
+                    sent_on.setdefault(nm, set()).add(p)
+            shared = {nm for nm, ps in sent_on.items() if len(ps) > 1}  # same bytes sent to two ports: only counted
+            want_all = Counter(nm for _, _, nm in dgs if nm is not None)
+            got_all = Counter(delivered)
+            if want_all != got_all:
+                diff = {nm: (want_all[nm], got_all[nm]) for nm in set(want_all) | set(got_all) if want_all[nm] != got_all[nm]}
+                kind = "lost" if sum(got_all.values()) < sum(want_all.values()) else "duplicated"
+                res.violation(f"delivery-{kind}", case,
+                              f"deliveries per datagram (sent, delivered): {diff} (sequence {seq}, ports {assign}, service order {schedule}, callback raised on {raised})", dict(want_all), dict(got_all))
+                ok = False
             for i in range(nports):
-                want = [nm for p, _, nm in dgs if p == i and nm is not None]
-                got = [nm for nm in delivered if nm.startswith("p%ds" % i)]
-                if got != want:
+                want = [nm for p, _, nm in dgs if p == i and nm is not None and nm not in shared]
+                got = [nm for nm in delivered if nm.startswith("p%ds" % i) and nm not in shared]
+                if ok and got != want:
                     kind = "lost" if len(got) < len(want) else ("duplicated" if len(got) > len(want) else "reordered")
                     res.violation(f"delivery-{kind}", case,
                                   f"port {i}: valid datagrams sent {want}, callback got {got} (sequence {seq}, ports {assign}, service order {schedule}, callback raised on {raised})", want, got)
@@ -278,9 +302,20 @@ def long_lived(res, job):
                 got = [d.name for d in bw.calls[n0:]]
                 res.traces += 1
                 res.case(("long", job["long"], idx), nontrivial=idx > 0)
+                from collections import Counter
+
+                sent_on = {}
+                for p, _, nm in dgs:
+                    if nm is not None:
+                        sent_on.setdefault(nm, set()).add(p)
+                shared = {nm for nm, ps in sent_on.items() if len(ps) > 1}
+                want_all = Counter(nm for _, _, nm in dgs if nm is not None)
+                if want_all != Counter(got):
+                    res.violation("long-lived-delivery", dict(case, upto=idx), f"bridge that already handled {idx} sequences: sent {dict(want_all)}, delivered {dict(Counter(got))} (sequence {seq} on ports {assign})", dict(want_all), dict(Counter(got)))
+                    return
                 for i in range(2):
-                    want = [nm for p, _, nm in dgs if p == i and nm is not None]
-                    g = [nm for nm in got if nm.startswith("p%ds" % i)]
+                    want = [nm for p, _, nm in dgs if p == i and nm is not None and nm not in shared]
+                    g = [nm for nm in got if nm.startswith("p%ds" % i) and nm not in shared]
                     if g != want:
                         res.violation("long-lived-delivery", dict(case, upto=idx), f"bridge that already handled {idx} sequences: port {i} sent {want}, delivered {g} (sequence {seq} on ports {assign})", want, g)
                         return
